@@ -8,7 +8,7 @@ LEVEL = "exploration"
 def run(res):
     quick = res.tier == "quick"
     shards = 2 if quick else 16
-    per = 1_000_000 if quick else 12_000_000
+    per = 1_000_000 if quick else 200_000_000
     outs = pmap(lambda i: inproc.check(res, "words", ["--seed", res.seed * 1000 + i, "--random", per], "words", "status/data word predicates"), range(shards))
     outs = [o for o in outs if o]
     if not outs:
@@ -26,7 +26,7 @@ def run(res):
                      data_word_cases=o["data_word_evaluations"], data_word_reported=o["data_word_reported"],
                      distinct_structured_words=structured)
     res.exhaustive = False
-    res.rule = ("per word type: 256 identifier bytes x {zero body, 72 single bits, 2556 bit pairs, all ones} (complete) + random bodies; "
+    res.rule = ("per word type: 256 identifier bytes x {zero body, 72 single bits, 2556 bit pairs, all ones} + all 59640 bit triples under the own identifier (complete) + random bodies; "
                 "data words: 256 identifiers x {empty, full, 28 single-lane, 28 all-but-one, 64 random} active-lane masks; "
                 "non-trivial = distinct structured word (capped at 5000 in distinct_nontrivial, exact number in distinct_structured_words)")
     res.samples = ["IHW id 0xE0 + single bit 28 -> must fail", "TDH id 0xE8 body 0 -> must fail (no trigger)", "TDT id 0xF0 + bit 66 -> must fail",
